@@ -55,7 +55,7 @@ PAIRS = [("sqlite", "duckdb"), ("duckdb", "sqlite"), ("sqlite", "sqlite"), ("duc
 # families below is plain SQL DuckDB runs as is.  Only families where name resolution cannot differ between MySQL and
 # DuckDB are used (no select-list alias is referenced at query level).
 EMULATED_PAIRS = [("sqlite", "mysql"), ("duckdb", "mysql")]
-EMULATED_FAMILIES = {"order-top", "order-limit", "order-two", "order-window", "order-window-shadow", "order-group", "order-join", "distinct-on", "qualify"}
+EMULATED_FAMILIES = {"order-top", "order-limit", "order-two", "order-window", "order-window-shadow", "order-group", "order-join", "distinct-on", "qualify", "order-qualified-shadow"}
 
 T_COLS = "id INTEGER, a INTEGER, b INTEGER, s {text}, d {ts}"
 U_COLS = "id INTEGER, a INTEGER, c {text}"
@@ -126,6 +126,10 @@ def order_queries(tier="quick"):
         out.append(Q("order-alias", f"shadow-coalesce.{dt}.{nt}", f"SELECT id, COALESCE(a, 0) AS a FROM t ORDER BY a{d}{n}, id"))
         out.append(Q("order-alias", f"shadow-neg.{dt}.{nt}", f"SELECT id, -a AS a FROM t ORDER BY a{d}{n}, id"))
         out.append(Q("order-alias", f"shadow-null.{dt}.{nt}", f"SELECT id, CASE WHEN a = 3 THEN NULL ELSE 1 END AS a FROM t ORDER BY a{d}{n}, id"))
+        # a table-qualified sort key whose name is also a select-list alias of another expression: the key is the column
+        out.append(Q("order-qualified-shadow", f"coalesce.{dt}.{nt}", f"SELECT t.id, COALESCE(t.a, 0) AS a FROM t ORDER BY t.a{d}{n}, t.id"))
+        out.append(Q("order-qualified-shadow", f"swapped.{dt}.{nt}", f"SELECT t.id, t.b AS a, t.a AS b FROM t ORDER BY t.a{d}{n}, t.b{d}{n}, t.id"))
+        out.append(Q("order-qualified-shadow", f"neg.{dt}.{nt}", f"SELECT t.id, -t.a AS a FROM t ORDER BY t.a{d}{n}, t.id"))
         out.append(Q("order-derived", f"derived-limit.{dt}.{nt}", f"SELECT id FROM (SELECT id, a FROM t ORDER BY a{d}{n}, id LIMIT 3) AS x ORDER BY id"))
         out.append(Q("order-derived", f"cte-limit.{dt}.{nt}", f"WITH c AS (SELECT id, a FROM t ORDER BY a{d}{n}, id LIMIT 2) SELECT id, a FROM c ORDER BY id"))
         out.append(Q("order-derived", f"in-subquery-limit.{dt}.{nt}", f"SELECT id FROM t WHERE id IN (SELECT id FROM t ORDER BY b{d}{n}, id LIMIT 2) ORDER BY id"))
